@@ -471,7 +471,7 @@ func httpCase(res *vkit.Result, p *peer, c Case) {
 
 var variants = map[string]string{
 	"header": `      - type: "var/header"
-        mapping: {"h1": "X-Tok", "h2": "X-Tok|substr(1,3)", "h3": "X-Tok|upper|substr(4)", "h4": "X-Missing|lower|replace(a,b)", "h5": "X-Tok|substr(2,100)"}
+        mapping: {"h1": "X-Tok", "h2": "X-Tok|substr(1,3)", "h3": "X-Tok|upper|substr(4)", "h4": "X-Missing|lower|replace(a,b)", "h5": "X-Tok|substr(2,100)", "h6": "X-Tok|substr(-10,-8)", "h7": "X-Tok|substr(-2)", "h8": "X-Tok|substr(3,-100)"}
 `,
 	"jsonpath": `      - type: "var/jsonpath"
         mapping: {"tok": "$.tok", "n": "$.n", "deep": "$.a.b[1]"}
